@@ -4,6 +4,7 @@ import Afkak.C12.MsgSet
 import Afkak.C12.Grow
 import Afkak.Monitor.C12
 import Driver.Util
+import Driver.CrcCross
 /-!
 Line-protocol driver for the `crc` component (property C12): CRC-32, message / message-set
 decoding with cost, every response decoder with cost, the buffer growth rule, and the C12 monitors.
@@ -143,6 +144,21 @@ def step (st : Unit) (line : String) : Unit × List String :=
           let (s, k2, g) := showVal (gzOf tab) depth v
           (st, [s!"value {s}", s!"cost {k + k2} gz {g}"])
     | _, _, _, _ => (st, ["bad-op"])
+  -- both models (this package's and the wire package's) on the same bytes
+  | "xdec" :: name :: version :: depth :: hex :: gzs =>
+    match version.toInt?, depth.toNat?, parseHex hex, gzs.mapM parseGz with
+    | some version, some depth, some d, some tab =>
+      match decoderOf name version, Driver.CrcCross.wire (gzOf tab) depth name version d with
+      | some m, some w =>
+        let a := Driver.CrcCross.mine (gzOf tab) depth m d
+        (st, if a == w then ["agree"] else ["differ", "c12 " ++ a, "wire " ++ w])
+      | _, _ => (st, ["bad-op"])
+    | _, _, _, _ => (st, ["bad-op"])
+  | "xdecset" :: depth :: hex :: gzs => match depth.toNat?, parseOptHex hex, gzs.mapM parseGz with
+    | some depth, some d, some tab =>
+      let (a, w) := Driver.CrcCross.crossSet (gzOf tab) depth d
+      (st, if a == w then ["agree"] else ["differ", "c12 " ++ a, "wire " ++ w])
+    | _, _, _ => (st, ["bad-op"])
   | ["encset", msgs] =>
     match (if msgs == "-" then some [] else (msgs.splitOn ";").mapM parseMsg) with
     | some ms => (st, [s!"bytes {toHex (encodeSet ms)}", "lens " ++ showInts (ms.map (fun om => ((encodeEntry om).length : Int)))])
@@ -172,6 +188,9 @@ def step (st : Unit) (line : String) : Unit × List String :=
   | ["mon-reads", len, cost] => match len.toNat?, cost.toNat? with
     | some len, some cost => (st, [if readsOk len cost then "ok" else "fail"])
     | _, _ => (st, ["bad-op"])
+  | ["mon-fetchtotal", len, gz, cost] => match len.toNat?, gz.toNat?, cost.toNat? with
+    | some len, some gz, some cost => (st, [if fetchTotalOk len gz cost then "ok" else "fail"])
+    | _, _, _ => (st, ["bad-op"])
   | ["mon-setcost", len, gz, cost] => match len.toNat?, gz.toNat?, cost.toNat? with
     | some len, some gz, some cost => (st, [if setCostOk len gz cost then "ok" else "fail"])
     | _, _, _ => (st, ["bad-op"])
